@@ -9,7 +9,32 @@
     (`nearestIndex_exact`)
   * amplitude scale factor: dividing by a non-zero factor inverts the scaling exactly over ℝ, and an integer sample is a
     fixed point of scale / unscale / round (`ampSF_roundtrip`)
-  Float rounding of cos/sin/atan2 is not proved: exhaustive 2^16 byte-pair runs on the implementation (harness).
+
+  ONE-STEP QUANTISATION BOUNDS for arbitrary values (all over ℝ, every bit depth `bits`, N = 2^bits, and for ANY rounding rule
+  `R : ℝ → ℤ` that returns a nearest integer — `IsNearest R`; instances: `rhe` = round half to even, the rule of `numpy.round` /
+  `numpy.rint`, and Mathlib's `round`):
+  * rounding: `rhe_err`, `rhe_tie_even`, `IsNearest.intCast` (fixes integers), `IsNearest.mem_Icc` (in-range stays in range),
+    `IsNearest.stable` (away from half-integers a perturbation does not change the result: why a tie band suffices in the harness)
+  * the quantised encoder of the Spec in closed form, `encodeMPq_eq`: `(R |z|, R t mod N)`, `t` the scaled phase in `[0, N)`
+  * magnitude: `encQ_mag_err` (|M − |z|| ≤ 1/2, every z), `encQ_mag_range` (|z| ≤ N−1 → 0 ≤ M ≤ N−1: representable)
+  * phase: `encQ_phase_range` (0 ≤ P ≤ N−1 always), `encQ_phase_wrap` (t > N − 1/2 → P = 0; `encQ_phase_wrap_tie_rhe`: also at the
+    tie for the code's rule), `encQ_phase_nowrap`, `encQ_phase_err` (∃ k, |2πP/N − arg z − 2πk| ≤ π/N, every z)
+  * decode error: `encQ_decode_err` (|decode(encode z) − z| ≤ 1/2 + |z|·π/N) and the sharper chord form `encQ_decode_err_chord`
+    (≤ 1/2 + 2|z| sin(π/(2N))), every z — the range hypothesis is needed only for representability of M (`encQ_mag_range`)
+  * fixed points of the QUANTISED encoder `encodeMPq_decodeMP`, idempotence `encodeMPq_idempotent` (M ≠ 0), and the stated failure
+    `encodeMPq_decodeMP_zero` (the sample (0, P) re-encodes to (0, 0))
+  * amplitude table, every non-decreasing table of length ≥ 2 and EVERY real x: `countBelow_lt_iff` (searchsorted-left on a sorted
+    table), `nearestR_optimal` (index in range and a nearest entry), `nearestR_below`, `nearestR_above`, `nearestR_tie_lower`
+    (strictly increasing: exact midpoints go to the lower index), `nearestR_half_gap` (within half the bracketing gap)
+  * AmpSF integer formats: `ampSF_quant_err` (|sf·n − v| ≤ |sf|/2 per component, every real v), `ampSF_quant_range` (in range →
+    representable), `ampSF_quant_err_norm` (complex: ≤ |sf|/√2), `ampSF_fixed_point`
+  * plain integer IQ/QI (no rounding step in the code, the cast truncates): `truncZ_err` (< 1 step, magnitude never grows),
+    `truncZ_sign`, `truncZ_intCast`
+
+  NOT proved (tied by the harness): float32 evaluation of |z|, atan2, the scaling and 1/sf in the implementation (inputs within a
+  tie band of a half-integer may round either way); the reduction of a rounded phase `N` to `0` is performed by numpy's
+  float → unsigned cast; out-of-range inputs (round |z| ≥ N, |v/sf| beyond the signed range) wrap through the cast and are outside
+  the property and outside these theorems.
 -/
 import SarpyModel.Spec.Codec
 import Mathlib.Analysis.SpecialFunctions.Complex.Arg
@@ -17,6 +42,9 @@ import Mathlib.Analysis.SpecialFunctions.Trigonometric.Basic
 import Mathlib.Tactic.Linarith
 import Mathlib.Tactic.Ring
 import Mathlib.Tactic.FieldSimp
+import Mathlib.Algebra.Order.Round
+import Mathlib.Algebra.Order.Floor.Ring
+import Mathlib.Analysis.SpecialFunctions.Trigonometric.Bounds
 
 namespace Sarpy.Props.C08
 open Sarpy.Spec.Codec
@@ -63,7 +91,38 @@ theorem deinterleave_length {α : Type} (l : List α) : (deinterleave l).length 
 theorem pick_involutive {α : Type} (o : Order) (p : α × α) : pick o (pick o p) = p := by
   cases o <;> rfl
 
+/-! ### rounding to the nearest integer
+
+  `numpy.round` / `numpy.rint` round half to even (`rhe`).  Every bound below is stated for ANY rounding rule `R : ℝ → ℤ` that
+  returns a nearest integer (`IsNearest R`), so none of them depends on the tie rule; they are instantiated at `rhe` (the
+  code's rule) and at Mathlib's `round` (ties away from zero). -/
+
+/-- round half to even -/
+noncomputable def rhe (x : ℝ) : ℤ :=
+  if Int.fract x < 1 / 2 then ⌊x⌋
+  else if 1 / 2 < Int.fract x then ⌊x⌋ + 1
+  else if Even ⌊x⌋ then ⌊x⌋ else ⌊x⌋ + 1
+
+/-- `R` returns a nearest integer -/
+def IsNearest (R : ℝ → ℤ) : Prop := ∀ x : ℝ, |(R x : ℝ) - x| ≤ 1 / 2
+
 /-! ### magnitude / phase over the reals -/
+
+/-- the scalar operations over ℝ with rounding rule `R` -/
+noncomputable def realOpsR (R : ℝ → ℤ) : Ops ℝ where
+  add := (· + ·)
+  sub := (· - ·)
+  mul := (· * ·)
+  div := (· / ·)
+  sqrt := Real.sqrt
+  cos := Real.cos
+  sin := Real.sin
+  atan2 := fun y x => Complex.arg ⟨x, y⟩
+  pi := Real.pi
+  ofNat := fun n => (n : ℝ)
+  lt := fun a b => decide (a < b)
+  rint := fun x => (R x : ℝ)
+  floor := fun x => (⌊x⌋ : ℝ)
 
 noncomputable def realOps : Ops ℝ where
   add := (· + ·)
@@ -77,6 +136,8 @@ noncomputable def realOps : Ops ℝ where
   pi := Real.pi
   ofNat := fun n => (n : ℝ)
   lt := fun a b => decide (a < b)
+  rint := fun x => (rhe x : ℝ)
+  floor := fun x => (⌊x⌋ : ℝ)
 
 /-- phase of a stored sample -/
 noncomputable def theta (bits : Nat) (p : ℝ) : ℝ := p * 2 * Real.pi / (2 ^ bits : ℕ)
@@ -210,5 +271,843 @@ theorem ampSF_roundtrip (sf : ℝ) (i : ℤ) (h : sf ≠ 0) : round ((1 / sf) * 
 example : deinterleave [1, 2, 3, 4, 5, 6] = [(1, 2), (3, 4), (5, 6)] := by decide
 example : interleave (deinterleave [1, 2, 3, 4]) = [1, 2, 3, 4] := by decide
 example : ([0, 1, 3, 7] : List ℝ).Pairwise (· < ·) := by norm_num
+
+theorem rhe_err (x : ℝ) : |(rhe x : ℝ) - x| ≤ 1 / 2 := by
+  have h0 := Int.fract_nonneg x
+  have h1 := Int.fract_lt_one x
+  have hf : Int.fract x = x - ⌊x⌋ := rfl
+  unfold rhe
+  rw [abs_le]
+  split_ifs with a b c
+  · constructor <;> linarith
+  · push_cast; constructor <;> linarith
+  · constructor <;> linarith
+  · push_cast; constructor <;> linarith
+
+/-- the rule really is half-to-even: at a tie the result is even -/
+theorem rhe_tie_even (x : ℝ) (h : Int.fract x = 1 / 2) : Even (rhe x) := by
+  unfold rhe
+  rw [h]
+  simp only [lt_self_iff_false, if_false]
+  split_ifs with c
+  · exact c
+  · exact Int.even_add_one.2 c
+
+theorem isNearest_rhe : IsNearest rhe := rhe_err
+
+theorem isNearest_round : IsNearest (fun x : ℝ => round x) := by
+  intro x
+  rw [abs_sub_comm]
+  exact abs_sub_round x
+
+/-- a nearest-integer rule fixes the integers -/
+theorem IsNearest.intCast {R : ℝ → ℤ} (hR : IsNearest R) (n : ℤ) : R (n : ℝ) = n := by
+  have h := hR n
+  rw [abs_le] at h
+  have h1 : ((R (n : ℝ) - n : ℤ) : ℝ) < 1 := by push_cast; linarith [h.2]
+  have h2 : (-1 : ℝ) < ((R (n : ℝ) - n : ℤ) : ℝ) := by push_cast; linarith [h.1]
+  have h1' : R (n : ℝ) - n < 1 := by exact_mod_cast h1
+  have h2' : -1 < R (n : ℝ) - n := by exact_mod_cast h2
+  omega
+
+theorem IsNearest.natCast {R : ℝ → ℤ} (hR : IsNearest R) (n : ℕ) : R (n : ℝ) = n := by
+  have := hR.intCast (n : ℤ)
+  simpa using this
+
+/-- a nearest-integer rule maps an interval with integer end points into itself: the rounded value of an in-range real is
+    a representable integer -/
+theorem IsNearest.mem_Icc {R : ℝ → ℤ} (hR : IsNearest R) (lo hi : ℤ) (x : ℝ) (h0 : (lo : ℝ) ≤ x) (h1 : x ≤ (hi : ℝ)) :
+    lo ≤ R x ∧ R x ≤ hi := by
+  have h := hR x
+  rw [abs_le] at h
+  have a : ((lo - 1 : ℤ) : ℝ) < (R x : ℝ) := by push_cast; linarith [h.1]
+  have b : (R x : ℝ) < ((hi + 1 : ℤ) : ℝ) := by push_cast; linarith [h.2]
+  have a' : lo - 1 < R x := by exact_mod_cast a
+  have b' : R x < hi + 1 := by exact_mod_cast b
+  omega
+
+theorem rhe_intCast (n : ℤ) : rhe (n : ℝ) = n := isNearest_rhe.intCast n
+
+example : rhe (5 / 2) = 2 := by
+  have h : Int.fract (5 / 2 : ℝ) = 1 / 2 := by
+    rw [Int.fract_eq_iff]; refine ⟨by norm_num, by norm_num, 2, by norm_num⟩
+  have hfl : ⌊(5 / 2 : ℝ)⌋ = 2 := by
+    rw [Int.floor_eq_iff]; constructor <;> norm_num
+  unfold rhe
+  rw [h, hfl]
+  simp
+example : rhe (7 / 2) = 4 := by
+  have h : Int.fract (7 / 2 : ℝ) = 1 / 2 := by
+    rw [Int.fract_eq_iff]; refine ⟨by norm_num, by norm_num, 3, by norm_num⟩
+  have hfl : ⌊(7 / 2 : ℝ)⌋ = 3 := by
+    rw [Int.floor_eq_iff]; constructor <;> norm_num
+  unfold rhe
+  rw [h, hfl]
+  simp
+  decide
+
+/-! ### the quantised magnitude / phase encoder (`encodeMPq`), any bit depth, any nearest-integer rule -/
+
+/-- `|z|` -/
+noncomputable def mag (x y : ℝ) : ℝ := Real.sqrt (x * x + y * y)
+
+/-- the phase wrapped into `[0, 2π)`: `theta = arctan2(y, x); theta[theta < 0] += 2π` -/
+noncomputable def phase (x y : ℝ) : ℝ :=
+  if Complex.arg ⟨x, y⟩ < 0 then Complex.arg ⟨x, y⟩ + 2 * Real.pi else Complex.arg ⟨x, y⟩
+
+/-- the scaled, un-rounded phase `t ∈ [0, 2^bits)` -/
+noncomputable def tScaled (bits : Nat) (x y : ℝ) : ℝ := phase x y * (2 ^ bits : ℕ) / (2 * Real.pi)
+
+/-- stored magnitude (an integer) -/
+noncomputable def Mq (R : ℝ → ℤ) (x y : ℝ) : ℤ := R (mag x y)
+
+/-- stored phase (an integer): the rounded scaled phase reduced mod `2^bits` -/
+noncomputable def Pq (R : ℝ → ℤ) (bits : Nat) (x y : ℝ) : ℤ := R (tScaled bits x y) % ((2 ^ bits : ℕ) : ℤ)
+
+theorem encodeMP_eq (bits : Nat) (x y : ℝ) : encodeMP realOps bits x y = (mag x y, tScaled bits x y) := by
+  simp only [encodeMP, realOps, mag, tScaled, phase, Nat.cast_zero, Nat.cast_ofNat, decide_eq_true_eq]
+
+theorem encodeMP_realOpsR (R : ℝ → ℤ) (bits : Nat) (x y : ℝ) : encodeMP (realOpsR R) bits x y = encodeMP realOps bits x y := rfl
+
+theorem decodeMP_realOpsR (R : ℝ → ℤ) (bits : Nat) (m p : ℝ) : decodeMP (realOpsR R) bits m p = decodeMP realOps bits m p := rfl
+
+theorem realOps_eq : realOps = realOpsR rhe := rfl
+
+/-- the subtraction of `⌊r/N⌋·N` is reduction mod `N` on the integers -/
+theorem wrapPow_int (R : ℝ → ℤ) (bits : Nat) (k : ℤ) :
+    wrapPow (realOpsR R) bits (k : ℝ) = ((k % ((2 ^ bits : ℕ) : ℤ) : ℤ) : ℝ) := by
+  simp only [wrapPow, realOpsR]
+  rw [Int.floor_div_natCast, Int.floor_intCast]
+  have h := Int.emod_add_mul_ediv k ((2 ^ bits : ℕ) : ℤ)
+  have h' : ((k % ((2 ^ bits : ℕ) : ℤ) : ℤ) : ℝ) + (((2 ^ bits : ℕ) : ℤ) : ℝ) * ((k / ((2 ^ bits : ℕ) : ℤ) : ℤ) : ℝ) = (k : ℝ) := by
+    exact_mod_cast h
+  rw [← h']
+  push_cast
+  ring
+
+/-- **the quantised encoder in closed form**: `(R |z|, R t mod 2^bits)` -/
+theorem encodeMPq_eq (R : ℝ → ℤ) (bits : Nat) (x y : ℝ) :
+    encodeMPq (realOpsR R) bits x y = ((Mq R x y : ℝ), (Pq R bits x y : ℝ)) := by
+  unfold encodeMPq
+  rw [encodeMP_realOpsR, encodeMP_eq]
+  simp only
+  have : (realOpsR R).rint (tScaled bits x y) = ((R (tScaled bits x y) : ℤ) : ℝ) := rfl
+  rw [this, wrapPow_int]
+  rfl
+
+theorem mag_nonneg (x y : ℝ) : 0 ≤ mag x y := Real.sqrt_nonneg _
+
+theorem phase_nonneg (x y : ℝ) : 0 ≤ phase x y := by
+  unfold phase
+  have := Complex.neg_pi_lt_arg ⟨x, y⟩
+  split_ifs with h
+  · linarith
+  · linarith
+
+theorem phase_lt (x y : ℝ) : phase x y < 2 * Real.pi := by
+  unfold phase
+  have := Complex.arg_le_pi ⟨x, y⟩
+  split_ifs with h
+  · linarith
+  · linarith [Real.pi_pos]
+
+theorem tScaled_nonneg (bits : Nat) (x y : ℝ) : 0 ≤ tScaled bits x y := by
+  unfold tScaled
+  have := phase_nonneg x y
+  have := Real.pi_pos
+  positivity
+
+theorem tScaled_lt (bits : Nat) (x y : ℝ) : tScaled bits x y < (2 ^ bits : ℕ) := by
+  unfold tScaled
+  have h := phase_lt x y
+  have hp : 0 < 2 * Real.pi := by linarith [Real.pi_pos]
+  have hb : (0 : ℝ) < (2 ^ bits : ℕ) := by positivity
+  rw [div_lt_iff₀ hp]
+  nlinarith
+
+/-- the phase recovered from the scaled phase -/
+theorem tScaled_phase (bits : Nat) (x y : ℝ) : tScaled bits x y * (2 * Real.pi) / (2 ^ bits : ℕ) = phase x y := by
+  unfold tScaled
+  have hb : ((2 ^ bits : ℕ) : ℝ) ≠ 0 := by positivity
+  have hp : Real.pi ≠ 0 := Real.pi_ne_zero
+  field_simp
+
+/-! #### magnitude -/
+
+/-- **stored magnitude is within half a step of `|z|`**, every `z` -/
+theorem encQ_mag_err {R : ℝ → ℤ} (hR : IsNearest R) (x y : ℝ) : |(Mq R x y : ℝ) - mag x y| ≤ 1 / 2 := hR _
+
+theorem encQ_mag_nonneg {R : ℝ → ℤ} (hR : IsNearest R) (x y : ℝ) : 0 ≤ Mq R x y := by
+  have h := hR (mag x y)
+  rw [abs_le] at h
+  have := mag_nonneg x y
+  have a : ((-1 : ℤ) : ℝ) < ((Mq R x y : ℤ) : ℝ) := by unfold Mq; push_cast; linarith [h.1]
+  have : -1 < Mq R x y := by exact_mod_cast a
+  omega
+
+/-- **an in-range magnitude is stored as a representable integer** (`0 ≤ M ≤ 2^bits - 1`, so the cast into the unsigned raw
+    dtype is exact); the hypothesis `|z| ≤ 2^bits - 1` is needed for the upper bound only -/
+theorem encQ_mag_range {R : ℝ → ℤ} (hR : IsNearest R) (bits : Nat) (x y : ℝ) (h : mag x y ≤ ((2 ^ bits : ℕ) : ℝ) - 1) :
+    0 ≤ Mq R x y ∧ Mq R x y ≤ ((2 ^ bits : ℕ) : ℤ) - 1 := by
+  refine ⟨encQ_mag_nonneg hR x y, ?_⟩
+  have := hR.mem_Icc 0 (((2 ^ bits : ℕ) : ℤ) - 1) (mag x y) (by simpa using mag_nonneg x y) (by push_cast at h ⊢; linarith)
+  exact this.2
+
+/-! #### phase: range, wrap point -/
+
+/-- **stored phase is always a representable integer**, `0 ≤ P ≤ 2^bits - 1`, every `z` -/
+theorem encQ_phase_range (R : ℝ → ℤ) (bits : Nat) (x y : ℝ) : 0 ≤ Pq R bits x y ∧ Pq R bits x y ≤ ((2 ^ bits : ℕ) : ℤ) - 1 := by
+  have hb : (0 : ℤ) < ((2 ^ bits : ℕ) : ℤ) := by positivity
+  unfold Pq
+  refine ⟨Int.emod_nonneg _ (ne_of_gt hb), ?_⟩
+  have := Int.emod_lt_of_pos (R (tScaled bits x y)) hb
+  omega
+
+/-- the rounded scaled phase lies in `[0, 2^bits]` -/
+theorem encQ_round_range {R : ℝ → ℤ} (hR : IsNearest R) (bits : Nat) (x y : ℝ) :
+    0 ≤ R (tScaled bits x y) ∧ R (tScaled bits x y) ≤ ((2 ^ bits : ℕ) : ℤ) := by
+  apply hR.mem_Icc 0 ((2 ^ bits : ℕ) : ℤ)
+  · simpa using tScaled_nonneg bits x y
+  · have := tScaled_lt bits x y
+    push_cast at this ⊢
+    linarith
+
+/-- **the wrap point**: a scaled phase above `2^bits - 1/2` rounds to `2^bits` and is stored as `0` (any tie rule) -/
+theorem encQ_phase_wrap {R : ℝ → ℤ} (hR : IsNearest R) (bits : Nat) (x y : ℝ)
+    (h : ((2 ^ bits : ℕ) : ℝ) - 1 / 2 < tScaled bits x y) : Pq R bits x y = 0 := by
+  have hr := (encQ_round_range hR bits x y).2
+  have h2 := hR (tScaled bits x y)
+  rw [abs_le] at h2
+  have a : (((2 ^ bits : ℕ) : ℤ) - 1 : ℤ) < R (tScaled bits x y) := by
+    have : (((((2 ^ bits : ℕ) : ℤ) - 1 : ℤ)) : ℝ) < ((R (tScaled bits x y) : ℤ) : ℝ) := by push_cast at h ⊢; linarith [h2.1]
+    exact_mod_cast this
+  have e : R (tScaled bits x y) = ((2 ^ bits : ℕ) : ℤ) := by omega
+  unfold Pq
+  rw [e, Int.emod_self]
+
+/-- below the wrap point nothing is reduced: the stored phase is the rounded scaled phase -/
+theorem encQ_phase_nowrap {R : ℝ → ℤ} (hR : IsNearest R) (bits : Nat) (x y : ℝ)
+    (h : tScaled bits x y < ((2 ^ bits : ℕ) : ℝ) - 1 / 2) : Pq R bits x y = R (tScaled bits x y) := by
+  have hr := (encQ_round_range hR bits x y).1
+  have h2 := hR (tScaled bits x y)
+  rw [abs_le] at h2
+  have a : R (tScaled bits x y) < ((2 ^ bits : ℕ) : ℤ) := by
+    have : ((R (tScaled bits x y) : ℤ) : ℝ) < ((((2 ^ bits : ℕ) : ℤ)) : ℝ) := by push_cast at h ⊢; linarith [h2.2]
+    exact_mod_cast this
+  unfold Pq
+  exact Int.emod_eq_of_lt hr a
+
+/-- the code's rule (half to even) at the wrap tie itself: `t = 2^bits - 1/2` is stored as `0` for every bit depth ≥ 1 -/
+theorem encQ_phase_wrap_tie_rhe (bits : Nat) (hb : 1 ≤ bits) (x y : ℝ)
+    (h : ((2 ^ bits : ℕ) : ℝ) - 1 / 2 ≤ tScaled bits x y) : Pq rhe bits x y = 0 := by
+  rcases lt_or_eq_of_le h with h | h
+  · exact encQ_phase_wrap isNearest_rhe bits x y h
+  · have hfl : ⌊tScaled bits x y⌋ = ((2 ^ bits : ℕ) : ℤ) - 1 := by
+      rw [Int.floor_eq_iff, ← h]; push_cast; constructor <;> linarith
+    have hfr : Int.fract (tScaled bits x y) = 1 / 2 := by
+      unfold Int.fract; rw [hfl, ← h]; push_cast; ring
+    have hodd : ¬ Even (((2 ^ bits : ℕ) : ℤ) - 1) := by
+      obtain ⟨c, rfl⟩ : ∃ c, bits = c + 1 := ⟨bits - 1, by omega⟩
+      rw [Int.not_even_iff_odd]
+      refine ⟨2 ^ c - 1, ?_⟩
+      push_cast; ring
+    have e : rhe (tScaled bits x y) = ((2 ^ bits : ℕ) : ℤ) := by
+      unfold rhe
+      rw [hfr, hfl]
+      simp only [lt_self_iff_false, if_false, hodd]
+      ring
+    unfold Pq
+    rw [e, Int.emod_self]
+
+/-! #### phase error -/
+
+theorem phase_eq_arg (x y : ℝ) : ∃ e : ℤ, phase x y = Complex.arg ⟨x, y⟩ + 2 * Real.pi * e := by
+  unfold phase
+  split_ifs
+  · exact ⟨1, by simp⟩
+  · exact ⟨0, by simp⟩
+
+/-- the decoded phase of the stored sample minus the rounding error of the scaled phase is the phase of `z`, up to a whole
+    number of turns -/
+theorem encQ_phase_key (R : ℝ → ℤ) (bits : Nat) (x y : ℝ) :
+    ∃ k : ℤ, theta bits (Pq R bits x y) - Complex.arg ⟨x, y⟩ - 2 * Real.pi * k
+      = (2 * Real.pi / (2 ^ bits : ℕ)) * ((R (tScaled bits x y) : ℝ) - tScaled bits x y) := by
+  obtain ⟨e, he⟩ := phase_eq_arg x y
+  have ht := tScaled_phase bits x y
+  have hb : ((2 ^ bits : ℕ) : ℝ) ≠ 0 := by positivity
+  have hP : ((Pq R bits x y : ℤ) : ℝ) = (R (tScaled bits x y) : ℝ)
+      - ((2 ^ bits : ℕ) : ℝ) * ((R (tScaled bits x y) / ((2 ^ bits : ℕ) : ℤ) : ℤ) : ℝ) := by
+    unfold Pq
+    rw [Int.emod_def]
+    push_cast
+    ring
+  refine ⟨e - R (tScaled bits x y) / ((2 ^ bits : ℕ) : ℤ), ?_⟩
+  have ha : Complex.arg ⟨x, y⟩ = tScaled bits x y * (2 * Real.pi) / (2 ^ bits : ℕ) - 2 * Real.pi * e := by
+    rw [ht, he]; ring
+  rw [ha, hP]
+  unfold theta
+  push_cast
+  field_simp
+  ring
+
+/-- **stored phase is within half a step (`π/2^bits`) of `arg z`, modulo whole turns**, every `z` (at `z = 0`: `arg 0 = 0`) -/
+theorem encQ_phase_err {R : ℝ → ℤ} (hR : IsNearest R) (bits : Nat) (x y : ℝ) :
+    ∃ k : ℤ, |theta bits (Pq R bits x y) - Complex.arg ⟨x, y⟩ - 2 * Real.pi * k| ≤ Real.pi / (2 ^ bits : ℕ) := by
+  obtain ⟨k, hk⟩ := encQ_phase_key R bits x y
+  refine ⟨k, ?_⟩
+  rw [hk, abs_mul]
+  have hb : (0 : ℝ) < (2 ^ bits : ℕ) := by positivity
+  have hpos : 0 < 2 * Real.pi / (2 ^ bits : ℕ) := by have := Real.pi_pos; positivity
+  rw [abs_of_pos hpos]
+  have := hR (tScaled bits x y)
+  calc 2 * Real.pi / (2 ^ bits : ℕ) * |(R (tScaled bits x y) : ℝ) - tScaled bits x y|
+      ≤ 2 * Real.pi / (2 ^ bits : ℕ) * (1 / 2) := by
+        exact mul_le_mul_of_nonneg_left this (le_of_lt hpos)
+    _ = Real.pi / (2 ^ bits : ℕ) := by ring
+
+/-! #### decode error -/
+
+/-- polar forms: `‖M e^{iθ} - r e^{ia}‖ ≤ |M - r| + r ‖e^{i(θ - a - 2πk)} - 1‖` -/
+theorem polar_sub_le (M r θ a : ℝ) (hr : 0 ≤ r) (k : ℤ) :
+    ‖(M : ℂ) * Complex.exp (θ * Complex.I) - (r : ℂ) * Complex.exp (a * Complex.I)‖
+      ≤ |M - r| + r * ‖Complex.exp (Complex.I * ((θ - a - 2 * Real.pi * k : ℝ) : ℂ)) - 1‖ := by
+  have hper : Complex.exp (Complex.I * ((θ - a - 2 * Real.pi * k : ℝ) : ℂ)) = Complex.exp (((θ : ℂ) - a) * Complex.I) := by
+    have := Complex.exp_mul_I_periodic.sub_int_mul_eq (x := ((θ : ℂ) - a)) k
+    rw [← this]
+    congr 1
+    push_cast
+    ring
+  have e2 : Complex.exp (a * Complex.I) * Complex.exp (((θ : ℂ) - a) * Complex.I) = Complex.exp (θ * Complex.I) := by
+    rw [← Complex.exp_add]; congr 1; ring
+  have split : (M : ℂ) * Complex.exp (θ * Complex.I) - (r : ℂ) * Complex.exp (a * Complex.I)
+      = ((M - r : ℝ) : ℂ) * Complex.exp (θ * Complex.I)
+        + (r : ℂ) * (Complex.exp (a * Complex.I) * (Complex.exp (Complex.I * ((θ - a - 2 * Real.pi * k : ℝ) : ℂ)) - 1)) := by
+    rw [hper, mul_sub, e2]
+    push_cast
+    ring
+  rw [split]
+  refine le_trans (norm_add_le _ _) ?_
+  rw [norm_mul, norm_mul, norm_mul, Complex.norm_exp_ofReal_mul_I, Complex.norm_exp_ofReal_mul_I, Complex.norm_real,
+    Complex.norm_real, Real.norm_eq_abs, Real.norm_eq_abs, abs_of_nonneg hr]
+  simp
+
+theorem pair_as_polar (x y : ℝ) : ((⟨x, y⟩ : ℂ)) = ((mag x y : ℝ) : ℂ) * Complex.exp ((Complex.arg ⟨x, y⟩ : ℝ) * Complex.I) := by
+  have h := Complex.norm_mul_exp_arg_mul_I ⟨x, y⟩
+  have hm : ‖(⟨x, y⟩ : ℂ)‖ = mag x y := by
+    rw [Complex.norm_eq_sqrt_sq_add_sq]; unfold mag; simp only; congr 1; ring
+  rw [hm] at h
+  exact h.symm
+
+theorem polar_as_pair (m t : ℝ) : ((⟨m * Real.cos t, m * Real.sin t⟩ : ℂ)) = (m : ℂ) * Complex.exp (t * Complex.I) := by
+  rw [Complex.exp_mul_I]
+  apply Complex.ext <;> simp [Complex.cos_ofReal_re, Complex.sin_ofReal_re, Complex.cos_ofReal_im, Complex.sin_ofReal_im]
+
+/-- Euclidean distance between the decoded stored sample and `z`, as a norm in ℂ -/
+theorem dist_as_norm (R : ℝ → ℤ) (bits : Nat) (x y : ℝ) :
+    Real.sqrt (((decodeMP realOps bits (Mq R x y) (Pq R bits x y)).1 - x) ^ 2 + ((decodeMP realOps bits (Mq R x y) (Pq R bits x y)).2 - y) ^ 2)
+      = ‖((Mq R x y : ℝ) : ℂ) * Complex.exp ((theta bits (Pq R bits x y) : ℝ) * Complex.I)
+          - ((mag x y : ℝ) : ℂ) * Complex.exp ((Complex.arg ⟨x, y⟩ : ℝ) * Complex.I)‖ := by
+  rw [decodeMP_eq, ← polar_as_pair, ← pair_as_polar, Complex.norm_eq_sqrt_sq_add_sq]
+  simp
+
+/-- **decode error** (general form): the decoded stored sample is within `|M - |z|| + |z|·‖e^{iu} - 1‖` of `z`, `u` the phase error -/
+theorem encQ_decode_err_chord {R : ℝ → ℤ} (hR : IsNearest R) (bits : Nat) (x y : ℝ) :
+    Real.sqrt (((decodeMP realOps bits (Mq R x y) (Pq R bits x y)).1 - x) ^ 2 + ((decodeMP realOps bits (Mq R x y) (Pq R bits x y)).2 - y) ^ 2)
+      ≤ 1 / 2 + 2 * mag x y * Real.sin (Real.pi / (2 * (2 ^ bits : ℕ))) := by
+  rw [dist_as_norm]
+  obtain ⟨k, hk⟩ := encQ_phase_err hR bits x y
+  refine le_trans (polar_sub_le _ _ _ _ (mag_nonneg x y) k) ?_
+  have h1 := encQ_mag_err hR x y
+  rw [Complex.norm_exp_I_mul_ofReal_sub_one]
+  set u := theta bits (Pq R bits x y) - Complex.arg ⟨x, y⟩ - 2 * Real.pi * k with hu
+  have hb : (1 : ℝ) ≤ (2 ^ bits : ℕ) := by exact_mod_cast Nat.one_le_two_pow
+  have hpi := Real.pi_pos
+  have hdiv : Real.pi / (2 ^ bits : ℕ) ≤ Real.pi := div_le_self (le_of_lt hpi) hb
+  have hu2 : |u / 2| ≤ Real.pi / (2 * (2 ^ bits : ℕ)) := by
+    rw [abs_div, abs_two, ← div_div, div_right_comm]
+    linarith
+  have hle : |u / 2| ≤ Real.pi := by
+    have : Real.pi / (2 * (2 ^ bits : ℕ)) = Real.pi / (2 ^ bits : ℕ) / 2 := by rw [div_div, mul_comm]
+    linarith
+  have hs : |Real.sin (u / 2)| ≤ Real.sin (Real.pi / (2 * (2 ^ bits : ℕ))) := by
+    rw [Real.abs_sin_eq_sin_abs_of_abs_le_pi hle]
+    apply Real.sin_le_sin_of_le_of_le_pi_div_two
+    · have := abs_nonneg (u / 2); linarith
+    · have : Real.pi / (2 * (2 ^ bits : ℕ)) = Real.pi / (2 ^ bits : ℕ) / 2 := by rw [div_div, mul_comm]
+      linarith
+    · exact hu2
+  rw [Real.norm_eq_abs, abs_mul, abs_two]
+  have hm := mag_nonneg x y
+  nlinarith [mul_le_mul_of_nonneg_left hs hm]
+
+/-- **decode error bound** `1/2 + |z|·π/2^bits` (half a magnitude step plus half a phase step at radius `|z|`), every `z`;
+    with `|z| ≤ 2^bits - 1` the stored magnitude is representable (`encQ_mag_range`), the stored phase always is -/
+theorem encQ_decode_err {R : ℝ → ℤ} (hR : IsNearest R) (bits : Nat) (x y : ℝ) :
+    Real.sqrt (((decodeMP realOps bits (Mq R x y) (Pq R bits x y)).1 - x) ^ 2 + ((decodeMP realOps bits (Mq R x y) (Pq R bits x y)).2 - y) ^ 2)
+      ≤ 1 / 2 + mag x y * Real.pi / (2 ^ bits : ℕ) := by
+  refine le_trans (encQ_decode_err_chord hR bits x y) ?_
+  have hm := mag_nonneg x y
+  have hpos : 0 ≤ Real.pi / (2 * (2 ^ bits : ℕ)) := by have := Real.pi_pos; positivity
+  have hs := Real.sin_le hpos
+  have : mag x y * Real.pi / (2 ^ bits : ℕ) = 2 * mag x y * (Real.pi / (2 * (2 ^ bits : ℕ))) := by
+    have hb : ((2 ^ bits : ℕ) : ℝ) ≠ 0 := by positivity
+    field_simp
+  rw [this]
+  nlinarith [mul_le_mul_of_nonneg_left hs hm]
+
+/-! #### fixed points of the quantised encoder, idempotence -/
+
+/-- **every representable stored sample with non-zero magnitude is a fixed point of decode-then-QUANTISED-encode**
+    (integers `0 < M`, `0 ≤ P < 2^bits`; any nearest-integer rule) -/
+theorem encodeMPq_decodeMP {R : ℝ → ℤ} (hR : IsNearest R) (bits : Nat) (M P : ℤ) (hM : 0 < M) (hP0 : 0 ≤ P)
+    (hP1 : P < ((2 ^ bits : ℕ) : ℤ)) :
+    encodeMPq (realOpsR R) bits (decodeMP realOps bits M P).1 (decodeMP realOps bits M P).2 = ((M : ℝ), (P : ℝ)) := by
+  have h := encodeMP_decodeMP bits (M : ℝ) (P : ℝ) (by exact_mod_cast hM) (by exact_mod_cast hP0) (by exact_mod_cast hP1)
+  rw [encodeMP_eq] at h
+  have h1 : mag (decodeMP realOps bits M P).1 (decodeMP realOps bits M P).2 = M := congrArg Prod.fst h
+  have h2 : tScaled bits (decodeMP realOps bits M P).1 (decodeMP realOps bits M P).2 = P := congrArg Prod.snd h
+  rw [encodeMPq_eq]
+  unfold Mq Pq
+  rw [h1, h2, hR.intCast, hR.intCast, Int.emod_eq_of_lt hP0 hP1]
+
+/-- **idempotence**: where the stored magnitude is non-zero, decoding the stored sample and encoding again returns the
+    stored sample -/
+theorem encodeMPq_idempotent {R : ℝ → ℤ} (hR : IsNearest R) (bits : Nat) (x y : ℝ) (hM : Mq R x y ≠ 0) :
+    encodeMPq (realOpsR R) bits
+        (decodeMP realOps bits (encodeMPq (realOpsR R) bits x y).1 (encodeMPq (realOpsR R) bits x y).2).1
+        (decodeMP realOps bits (encodeMPq (realOpsR R) bits x y).1 (encodeMPq (realOpsR R) bits x y).2).2
+      = encodeMPq (realOpsR R) bits x y := by
+  rw [encodeMPq_eq R bits x y]
+  have h0 := encQ_mag_nonneg hR x y
+  have hp := encQ_phase_range R bits x y
+  exact encodeMPq_decodeMP hR bits (Mq R x y) (Pq R bits x y) (by omega) hp.1 (by omega)
+
+/-- **the stated failure at zero magnitude**: the phase is lost, the sample `(0, P)` re-encodes to `(0, 0)` -/
+theorem encodeMPq_decodeMP_zero {R : ℝ → ℤ} (hR : IsNearest R) (bits : Nat) (P : ℝ) :
+    encodeMPq (realOpsR R) bits (decodeMP realOps bits 0 P).1 (decodeMP realOps bits 0 P).2 = (0, 0) := by
+  rw [decodeMP_eq, encodeMPq_eq]
+  simp only [zero_mul]
+  have hz : (⟨0, 0⟩ : ℂ) = 0 := rfl
+  have hm : mag 0 0 = 0 := by unfold mag; simp
+  have ht : tScaled bits 0 0 = 0 := by unfold tScaled phase; rw [hz, Complex.arg_zero]; simp
+  unfold Mq Pq
+  rw [hm, ht]
+  have := hR.intCast 0
+  simp only [Int.cast_zero] at this
+  rw [this]
+  simp
+
+/-! #### instances: the code's rule (half to even) and Mathlib's `round` -/
+
+theorem encQ_decode_err_rhe (bits : Nat) (x y : ℝ) :
+    Real.sqrt (((decodeMP realOps bits (Mq rhe x y) (Pq rhe bits x y)).1 - x) ^ 2 + ((decodeMP realOps bits (Mq rhe x y) (Pq rhe bits x y)).2 - y) ^ 2)
+      ≤ 1 / 2 + mag x y * Real.pi / (2 ^ bits : ℕ) := encQ_decode_err isNearest_rhe bits x y
+
+theorem encQ_decode_err_round (bits : Nat) (x y : ℝ) :
+    Real.sqrt (((decodeMP realOps bits (Mq (fun v => round v) x y) (Pq (fun v => round v) bits x y)).1 - x) ^ 2
+        + ((decodeMP realOps bits (Mq (fun v => round v) x y) (Pq (fun v => round v) bits x y)).2 - y) ^ 2)
+      ≤ 1 / 2 + mag x y * Real.pi / (2 ^ bits : ℕ) := encQ_decode_err isNearest_round bits x y
+
+/-- the Spec encoder at the code's rule is the closed form -/
+theorem encodeMPq_realOps (bits : Nat) (x y : ℝ) :
+    encodeMPq realOps bits x y = ((Mq rhe x y : ℝ), (Pq rhe bits x y : ℝ)) := encodeMPq_eq rhe bits x y
+
+/-! satisfiability of the hypotheses (8 bits) -/
+-- an in-range magnitude: z = 3 + 4i, |z| = 5 ≤ 255
+example : mag 3 4 ≤ ((2 ^ 8 : ℕ) : ℝ) - 1 := by
+  have : mag 3 4 = 5 := by
+    unfold mag
+    rw [show (3 : ℝ) * 3 + 4 * 4 = 5 ^ 2 by norm_num, Real.sqrt_sq (by norm_num)]
+  rw [this]; norm_num
+-- a non-zero stored magnitude: z = 3 + 4i stores M = 5
+example : Mq rhe 3 4 ≠ 0 := by
+  have : mag 3 4 = ((5 : ℤ) : ℝ) := by
+    unfold mag
+    rw [show (3 : ℝ) * 3 + 4 * 4 = 5 ^ 2 by norm_num, Real.sqrt_sq (by norm_num)]; norm_num
+  unfold Mq
+  rw [this, rhe_intCast]; decide
+-- a representable stored sample
+example : (0 : ℤ) < 200 ∧ (0 : ℤ) ≤ 17 ∧ (17 : ℤ) < ((2 ^ 8 : ℕ) : ℤ) := by decide
+
+/-! ### amplitude table: the selected index is a nearest entry, for EVERY real magnitude and every non-decreasing table
+
+  Entries are read through `List.getD · · 0` (total); for `j < table.length` this is `table[j]` (`getD_eq`). -/
+
+/-- the comparison used over ℝ -/
+noncomputable abbrev ltR : ℝ → ℝ → Bool := fun a b => decide (a < b)
+
+/-- the index the repaired inverse selects -/
+noncomputable def nearestR (table : List ℝ) (x : ℝ) : Nat := nearestIndex ltR (· - ·) table x 0
+
+theorem getD_eq (table : List ℝ) (j : Nat) (hj : j < table.length) : table.getD j 0 = table[j] := by
+  rw [List.getD_eq_getElem?_getD, List.getElem?_eq_getElem hj, Option.getD_some]
+
+theorem sorted_mono (table : List ℝ) (hs : table.Pairwise (· ≤ ·)) {i j : Nat} (hij : i ≤ j) (hj : j < table.length) :
+    table.getD i 0 ≤ table.getD j 0 := by
+  rcases Nat.eq_or_lt_of_le hij with h | h
+  · subst h; exact le_refl _
+  · rw [getD_eq table i (by omega), getD_eq table j hj]
+    exact List.pairwise_iff_getElem.1 hs i j (by omega) hj h
+
+theorem countBelow_le_length (table : List ℝ) (x : ℝ) : countBelow ltR table x ≤ table.length := by
+  unfold countBelow; exact List.length_filter_le _ _
+
+/-- **`searchsorted(side='left')` on a non-decreasing table**: entry `j` is below `x` exactly when `j` is below the count -/
+theorem countBelow_lt_iff (table : List ℝ) (hs : table.Pairwise (· ≤ ·)) (x : ℝ) (j : Nat) (hj : j < table.length) :
+    table.getD j 0 < x ↔ j < countBelow ltR table x := by
+  induction table generalizing j with
+  | nil => simp at hj
+  | cons t rest ih =>
+    rw [List.pairwise_cons] at hs
+    unfold countBelow at ih ⊢
+    by_cases htx : t < x
+    · have hf : (t :: rest).filter (fun a => ltR a x) = t :: rest.filter (fun a => ltR a x) := by
+        simp [htx]
+      rw [hf]
+      cases j with
+      | zero => simp [htx]
+      | succ j =>
+        have hj' : j < rest.length := by simpa using hj
+        rw [List.getD_cons_succ, List.length_cons, ih hs.2 j hj']
+        omega
+    · have hrest : rest.filter (fun a => ltR a x) = [] := by
+        rw [List.filter_eq_nil_iff]
+        intro a ha
+        have := hs.1 a ha
+        simp only [decide_eq_true_eq, not_lt]
+        linarith [not_lt.1 htx]
+      have hf : (t :: rest).filter (fun a => ltR a x) = [] := by
+        simp [htx, hrest]
+      rw [hf]
+      simp only [List.length_nil, Nat.not_lt_zero, iff_false, not_lt]
+      cases j with
+      | zero => simpa using not_lt.1 htx
+      | succ j =>
+        have hj' : j < rest.length := by simpa using hj
+        rw [List.getD_cons_succ, getD_eq rest j hj']
+        have := hs.1 _ (List.getElem_mem hj')
+        linarith [not_lt.1 htx]
+
+/-- the selection rule, with the clipped bracket index `i = clip(searchsorted, 1, n-1)` -/
+theorem nearestR_eq (table : List ℝ) (x : ℝ) :
+    nearestR table x =
+      if table.getD (max 1 (min (countBelow ltR table x) (table.length - 1))) 0 - x
+          < x - table.getD (max 1 (min (countBelow ltR table x) (table.length - 1)) - 1) 0
+      then max 1 (min (countBelow ltR table x) (table.length - 1))
+      else max 1 (min (countBelow ltR table x) (table.length - 1)) - 1 := by
+  simp [nearestR, nearestIndex]
+
+private theorem abs_le_abs_of {a b : ℝ} (h1 : a ≤ b ∨ a ≤ -b) (h2 : -a ≤ b ∨ -a ≤ -b) : |a| ≤ |b| := by
+  rw [abs_le]
+  have := le_abs_self b
+  have := neg_le_abs b
+  constructor
+  · rcases h2 with h | h <;> linarith
+  · rcases h1 with h | h <;> linarith
+
+/-- **the selected index is in range and is a nearest entry**: every non-decreasing table of length ≥ 2, every real `x` -/
+theorem nearestR_optimal (table : List ℝ) (hs : table.Pairwise (· ≤ ·)) (hn : 2 ≤ table.length) (x : ℝ) :
+    nearestR table x < table.length ∧
+      ∀ j, j < table.length → |table.getD (nearestR table x) 0 - x| ≤ |table.getD j 0 - x| := by
+  have hc := countBelow_le_length table x
+  have hiff := countBelow_lt_iff table hs x
+  rw [nearestR_eq]
+  rcases Nat.eq_zero_or_pos (countBelow ltR table x) with h0 | hpos
+  · -- x is not above any entry
+    have hi : max 1 (min (countBelow ltR table x) (table.length - 1)) = 1 := by rw [h0]; simp
+    rw [hi]
+    have hall : ∀ j, j < table.length → x ≤ table.getD j 0 := by
+      intro j hj; have := (hiff j hj).not; rw [h0] at this; simpa using this
+    have a0 := hall 0 (by omega)
+    have a1 := hall 1 (by omega)
+    rw [if_neg (by simp only [Nat.sub_self]; linarith)]
+    refine ⟨by omega, fun j hj => ?_⟩
+    have := sorted_mono table hs (Nat.zero_le j) hj
+    have := hall j hj
+    simp only [Nat.sub_self]
+    exact abs_le_abs_of (Or.inl (by linarith)) (Or.inl (by linarith))
+  · rcases Nat.lt_or_ge (countBelow ltR table x) table.length with hlt | hge
+    · -- bracketed: table[c-1] < x ≤ table[c]
+      have hi : max 1 (min (countBelow ltR table x) (table.length - 1)) = countBelow ltR table x := by omega
+      rw [hi]
+      set c := countBelow ltR table x with hcdef
+      have hlo : table.getD (c - 1) 0 < x := (hiff (c - 1) (by omega)).2 (by omega)
+      have hhi : x ≤ table.getD c 0 := by
+        have := (hiff c hlt).not; simpa using this
+      have below : ∀ j, j < table.length → j < c → table.getD j 0 ≤ table.getD (c - 1) 0 :=
+        fun j _ hjc => sorted_mono table hs (by omega) (by omega)
+      have above : ∀ j, j < table.length → c ≤ j → table.getD c 0 ≤ table.getD j 0 :=
+        fun j hj hjc => sorted_mono table hs hjc hj
+      split_ifs with hsel
+      · refine ⟨hlt, fun j hj => ?_⟩
+        rcases Nat.lt_or_ge j c with hjc | hjc
+        · have := below j hj hjc
+          exact abs_le_abs_of (Or.inr (by linarith)) (Or.inr (by linarith))
+        · have := above j hj hjc
+          exact abs_le_abs_of (Or.inl (by linarith)) (Or.inl (by linarith))
+      · refine ⟨by omega, fun j hj => ?_⟩
+        have hsel' := not_lt.1 hsel
+        rcases Nat.lt_or_ge j c with hjc | hjc
+        · have := below j hj hjc
+          exact abs_le_abs_of (Or.inr (by linarith)) (Or.inr (by linarith))
+        · have := above j hj hjc
+          exact abs_le_abs_of (Or.inl (by linarith)) (Or.inl (by linarith))
+    · -- x is above every entry
+      have hi : max 1 (min (countBelow ltR table x) (table.length - 1)) = table.length - 1 := by omega
+      rw [hi]
+      have hall : ∀ j, j < table.length → table.getD j 0 < x := fun j hj => (hiff j hj).2 (by omega)
+      have a0 := hall (table.length - 1) (by omega)
+      have a1 := hall (table.length - 1 - 1) (by omega)
+      rw [if_pos (by linarith)]
+      refine ⟨by omega, fun j hj => ?_⟩
+      have := sorted_mono table hs (show j ≤ table.length - 1 by omega) (by omega)
+      have := hall j hj
+      exact abs_le_abs_of (Or.inr (by linarith)) (Or.inr (by linarith))
+
+/-- the same in `table[·]` notation -/
+theorem nearestR_optimal_getElem (table : List ℝ) (hs : table.Pairwise (· ≤ ·)) (hn : 2 ≤ table.length) (x : ℝ) :
+    ∃ hk : nearestR table x < table.length, ∀ (j : Nat) (hj : j < table.length), |table[nearestR table x] - x| ≤ |table[j] - x| := by
+  obtain ⟨hk, h⟩ := nearestR_optimal table hs hn x
+  refine ⟨hk, fun j hj => ?_⟩
+  have := h j hj
+  rwa [getD_eq table _ hk, getD_eq table j hj] at this
+
+/-- **below (or at) the first entry the index is 0** -/
+theorem nearestR_below (table : List ℝ) (hs : table.Pairwise (· ≤ ·)) (hn : 2 ≤ table.length) (x : ℝ)
+    (hx : x ≤ table.getD 0 0) : nearestR table x = 0 := by
+  have hiff := countBelow_lt_iff table hs x
+  have h0 : countBelow ltR table x = 0 := by
+    by_contra hne
+    have := (hiff 0 (by omega)).2 (by omega)
+    linarith
+  rw [nearestR_eq, h0]
+  have hi : max 1 (min 0 (table.length - 1)) = 1 := by simp
+  rw [hi]
+  have := sorted_mono table hs (show 0 ≤ 1 by omega) (by omega)
+  rw [if_neg (by simp only [Nat.sub_self]; linarith)]
+
+/-- **above the last entry the index is n-1** -/
+theorem nearestR_above (table : List ℝ) (hs : table.Pairwise (· ≤ ·)) (hn : 2 ≤ table.length) (x : ℝ)
+    (hx : table.getD (table.length - 1) 0 < x) : nearestR table x = table.length - 1 := by
+  have hiff := countBelow_lt_iff table hs x
+  have hc := countBelow_le_length table x
+  have hcn : countBelow ltR table x = table.length := by
+    have := (hiff (table.length - 1) (by omega)).1 hx
+    omega
+  rw [nearestR_eq, hcn]
+  have hi : max 1 (min table.length (table.length - 1)) = table.length - 1 := by omega
+  rw [hi]
+  have := sorted_mono table hs (show table.length - 1 - 1 ≤ table.length - 1 by omega) (by omega)
+  rw [if_pos (by linarith)]
+
+/-- **ties go to the lower index**: `x` exactly midway between two neighbouring entries of a strictly increasing table -/
+theorem nearestR_tie_lower (table : List ℝ) (hs : table.Pairwise (· < ·)) (i : Nat) (hi : i + 1 < table.length)
+    (x : ℝ) (hx : x = (table.getD i 0 + table.getD (i + 1) 0) / 2) : nearestR table x = i := by
+  have hs' : table.Pairwise (· ≤ ·) := hs.imp le_of_lt
+  have hiff := countBelow_lt_iff table hs' x
+  have hc := countBelow_le_length table x
+  have hlt : table.getD i 0 < table.getD (i + 1) 0 := by
+    rw [getD_eq table i (by omega), getD_eq table (i + 1) hi]
+    exact List.pairwise_iff_getElem.1 hs i (i + 1) (by omega) hi (by omega)
+  have h1 : i < countBelow ltR table x := (hiff i (by omega)).1 (by linarith)
+  have h2 : ¬ (i + 1 < countBelow ltR table x) := by
+    rw [← hiff (i + 1) hi]; linarith
+  have hcn : countBelow ltR table x = i + 1 := by omega
+  rw [nearestR_eq, hcn]
+  have hidx : max 1 (min (i + 1) (table.length - 1)) = i + 1 := by omega
+  rw [hidx, Nat.add_sub_cancel, if_neg (by linarith)]
+
+/-- **table round trip bound**: for `table[0] ≤ x ≤ table[n-1]` there are neighbouring entries bracketing `x`, and the
+    selected entry is within half their gap of `x` -/
+theorem nearestR_half_gap (table : List ℝ) (hs : table.Pairwise (· ≤ ·)) (hn : 2 ≤ table.length) (x : ℝ)
+    (h0 : table.getD 0 0 ≤ x) (h1 : x ≤ table.getD (table.length - 1) 0) :
+    ∃ i, i + 1 < table.length ∧ table.getD i 0 ≤ x ∧ x ≤ table.getD (i + 1) 0 ∧
+      |table.getD (nearestR table x) 0 - x| ≤ (table.getD (i + 1) 0 - table.getD i 0) / 2 := by
+  have hc := countBelow_le_length table x
+  have hiff := countBelow_lt_iff table hs x
+  have hcn : countBelow ltR table x < table.length := by
+    by_contra hge
+    have := (hiff (table.length - 1) (by omega)).2 (by omega)
+    linarith
+  set c := countBelow ltR table x with hcdef
+  refine ⟨max 1 c - 1, by omega, ?_, ?_, ?_⟩
+  · rcases Nat.eq_zero_or_pos c with hz | hp
+    · rw [hz]; simpa using h0
+    · exact le_of_lt ((hiff (max 1 c - 1) (by omega)).2 (by omega))
+  · have := (hiff (max 1 c - 1 + 1) (by omega)).not
+    have h' : ¬ (max 1 c - 1 + 1 < c) := by omega
+    exact not_lt.1 (this.2 h')
+  · have hopt := (nearestR_optimal table hs hn x).2
+    have hA := hopt (max 1 c - 1) (by omega)
+    have hB := hopt (max 1 c - 1 + 1) (by omega)
+    have lo : table.getD (max 1 c - 1) 0 ≤ x := by
+      rcases Nat.eq_zero_or_pos c with hz | hp
+      · rw [hz]; simpa using h0
+      · exact le_of_lt ((hiff (max 1 c - 1) (by omega)).2 (by omega))
+    have hi' : x ≤ table.getD (max 1 c - 1 + 1) 0 := by
+      have := (hiff (max 1 c - 1 + 1) (by omega)).not
+      have h' : ¬ (max 1 c - 1 + 1 < c) := by omega
+      exact not_lt.1 (this.2 h')
+    rw [abs_of_nonpos (show table.getD (max 1 c - 1) 0 - x ≤ 0 by linarith)] at hA
+    rw [abs_of_nonneg (show 0 ≤ table.getD (max 1 c - 1 + 1) 0 - x by linarith)] at hB
+    linarith
+
+/-! satisfiability: a concrete non-decreasing table with a repeated entry, and a strictly increasing one -/
+example : ([0, 1, 1, 3, 7] : List ℝ).Pairwise (· ≤ ·) ∧ 2 ≤ ([0, 1, 1, 3, 7] : List ℝ).length := by
+  constructor
+  · norm_num
+  · simp
+example : ([0, 1, 3, 7] : List ℝ).Pairwise (· < ·) ∧ 1 + 1 < ([0, 1, 3, 7] : List ℝ).length ∧
+    (2 : ℝ) = (([0, 1, 3, 7] : List ℝ).getD 1 0 + ([0, 1, 3, 7] : List ℝ).getD (1 + 1) 0) / 2 := by
+  refine ⟨by norm_num, by simp, by norm_num⟩
+example : ([0, 1, 3, 7] : List ℝ).getD 0 0 ≤ 2 ∧ (2 : ℝ) ≤ ([0, 1, 3, 7] : List ℝ).getD (([0, 1, 3, 7] : List ℝ).length - 1) 0 := by
+  norm_num
+
+/-! ### amplitude scale factor, integer raw formats: one-step bound for every real sample -/
+
+/-- the Spec encoder over ℝ in closed form: each component is `R (v / sf)` -/
+theorem encodeAmpSF_eq (R : ℝ → ℤ) (sf x y : ℝ) :
+    encodeAmpSF (realOpsR R) sf (x, y) = ((R (x / sf) : ℝ), (R (y / sf) : ℝ)) := by
+  simp only [encodeAmpSF, realOpsR, Nat.cast_one]
+  rw [one_div, inv_mul_eq_div, inv_mul_eq_div]
+
+/-- **per component: the decoded stored value `sf·n` is within half a scaled step `|sf|/2` of `v`**, every real `v` -/
+theorem ampSF_quant_err {R : ℝ → ℤ} (hR : IsNearest R) (sf v : ℝ) (h : sf ≠ 0) : |sf * (R (v / sf) : ℝ) - v| ≤ |sf| / 2 := by
+  have e : sf * (R (v / sf) : ℝ) - v = sf * ((R (v / sf) : ℝ) - v / sf) := by field_simp
+  rw [e, abs_mul]
+  have := hR (v / sf)
+  have hs := abs_nonneg sf
+  nlinarith [mul_le_mul_of_nonneg_left this hs]
+
+/-- **in range the rounded value is representable** in a signed `bits`-bit integer (so the cast is exact) -/
+theorem ampSF_quant_range {R : ℝ → ℤ} (hR : IsNearest R) (bits : Nat) (sf v : ℝ)
+    (h0 : -((2 ^ (bits - 1) : ℕ) : ℝ) ≤ v / sf) (h1 : v / sf ≤ ((2 ^ (bits - 1) : ℕ) : ℝ) - 1) :
+    -((2 ^ (bits - 1) : ℕ) : ℤ) ≤ R (v / sf) ∧ R (v / sf) ≤ ((2 ^ (bits - 1) : ℕ) : ℤ) - 1 := by
+  apply hR.mem_Icc
+  · push_cast at h0 ⊢; linarith
+  · push_cast at h1 ⊢; linarith
+
+/-- complex form: the squared distance between `z` and the decoded stored sample is at most `sf²/2` -/
+theorem ampSF_quant_err_sq {R : ℝ → ℤ} (hR : IsNearest R) (sf x y : ℝ) (h : sf ≠ 0) :
+    ((decodeAmpSF (· * ·) sf (encodeAmpSF (realOpsR R) sf (x, y))).1 - x) ^ 2
+      + ((decodeAmpSF (· * ·) sf (encodeAmpSF (realOpsR R) sf (x, y))).2 - y) ^ 2 ≤ sf ^ 2 / 2 := by
+  rw [encodeAmpSF_eq]
+  simp only [decodeAmpSF]
+  have a := ampSF_quant_err hR sf x h
+  have b := ampSF_quant_err hR sf y h
+  have a2 : (sf * (R (x / sf) : ℝ) - x) ^ 2 ≤ (|sf| / 2) ^ 2 := by
+    rw [← sq_abs (sf * (R (x / sf) : ℝ) - x)]
+    exact pow_le_pow_left₀ (abs_nonneg _) a 2
+  have b2 : (sf * (R (y / sf) : ℝ) - y) ^ 2 ≤ (|sf| / 2) ^ 2 := by
+    rw [← sq_abs (sf * (R (y / sf) : ℝ) - y)]
+    exact pow_le_pow_left₀ (abs_nonneg _) b 2
+  have : (|sf| / 2) ^ 2 = sf ^ 2 / 4 := by rw [div_pow, sq_abs]; norm_num
+  linarith
+
+/-- **complex form: `|decode(encode z) - z| ≤ |sf|/√2`**, every `z`, every non-zero scale factor -/
+theorem ampSF_quant_err_norm {R : ℝ → ℤ} (hR : IsNearest R) (sf x y : ℝ) (h : sf ≠ 0) :
+    Real.sqrt (((decodeAmpSF (· * ·) sf (encodeAmpSF (realOpsR R) sf (x, y))).1 - x) ^ 2
+      + ((decodeAmpSF (· * ·) sf (encodeAmpSF (realOpsR R) sf (x, y))).2 - y) ^ 2) ≤ |sf| / Real.sqrt 2 := by
+  have hsq := ampSF_quant_err_sq hR sf x y h
+  have h2 : (0 : ℝ) < Real.sqrt 2 := Real.sqrt_pos.2 (by norm_num)
+  have hb : 0 ≤ |sf| / Real.sqrt 2 := div_nonneg (abs_nonneg _) (le_of_lt h2)
+  apply Real.sqrt_le_iff.2
+  refine ⟨hb, ?_⟩
+  rw [div_pow, sq_abs, Real.sq_sqrt (by norm_num)]
+  exact hsq
+
+/-- integer samples are fixed points of decode-then-encode for any nearest-integer rule (generalises `ampSF_roundtrip`) -/
+theorem ampSF_fixed_point {R : ℝ → ℤ} (hR : IsNearest R) (sf : ℝ) (i q : ℤ) (h : sf ≠ 0) :
+    encodeAmpSF (realOpsR R) sf (decodeAmpSF (· * ·) sf ((i : ℝ), (q : ℝ))) = ((i : ℝ), (q : ℝ)) := by
+  simp only [decodeAmpSF]
+  rw [encodeAmpSF_eq]
+  have e1 : sf * (i : ℝ) / sf = i := by field_simp
+  have e2 : sf * (q : ℝ) / sf = q := by field_simp
+  rw [e1, e2, hR.intCast, hR.intCast]
+
+/-! ### plain IQ / QI integer formats: the cast truncates toward zero -/
+
+/-- truncation toward zero -/
+noncomputable def truncZ (x : ℝ) : ℤ := if x < 0 then -⌊-x⌋ else ⌊x⌋
+
+theorem truncZero_eq (R : ℝ → ℤ) (x : ℝ) : truncZero (realOpsR R) x = (truncZ x : ℝ) := by
+  simp only [truncZero, realOpsR, truncZ, Nat.cast_zero, decide_eq_true_eq, zero_sub]
+  split_ifs <;> simp
+
+/-- **truncation loses less than one step and never increases the magnitude** -/
+theorem truncZ_err (x : ℝ) : |(truncZ x : ℝ) - x| < 1 ∧ |(truncZ x : ℝ)| ≤ |x| := by
+  unfold truncZ
+  split_ifs with h
+  · have a := Int.floor_le (-x)
+    have b := Int.lt_floor_add_one (-x)
+    push_cast
+    constructor
+    · rw [abs_lt]; constructor <;> linarith
+    · have hf : (0 : ℝ) ≤ (⌊-x⌋ : ℝ) := by
+        have : (0 : ℤ) ≤ ⌊-x⌋ := Int.floor_nonneg.2 (by linarith)
+        exact_mod_cast this
+      rw [abs_neg, abs_of_nonneg hf, abs_of_neg h]; linarith
+  · have h' := not_lt.1 h
+    have a := Int.floor_le x
+    have b := Int.lt_floor_add_one x
+    constructor
+    · rw [abs_lt]; constructor <;> linarith
+    · have hf : (0 : ℝ) ≤ (⌊x⌋ : ℝ) := by
+        have : (0 : ℤ) ≤ ⌊x⌋ := Int.floor_nonneg.2 h'
+        exact_mod_cast this
+      rw [abs_of_nonneg hf, abs_of_nonneg h']; linarith
+
+/-- the sign is preserved (or the result is zero) -/
+theorem truncZ_sign (x : ℝ) : (0 ≤ x → 0 ≤ truncZ x) ∧ (x ≤ 0 → truncZ x ≤ 0) := by
+  unfold truncZ
+  constructor
+  · intro h
+    rw [if_neg (not_lt.2 h)]
+    exact Int.floor_nonneg.2 h
+  · intro h
+    split_ifs with hneg
+    · have : (0 : ℤ) ≤ ⌊-x⌋ := Int.floor_nonneg.2 (by linarith)
+      omega
+    · have : x = 0 := le_antisymm h (not_lt.1 hneg)
+      rw [this]; simp
+
+theorem truncZ_intCast (n : ℤ) : truncZ (n : ℝ) = n := by
+  unfold truncZ
+  split_ifs
+  · rw [← Int.cast_neg, Int.floor_intCast]; ring
+  · exact Int.floor_intCast n
+
+/-! satisfiability (int8, sf = 1/2, v = 10.3: v/sf = 20.6 is in range) -/
+example : (1 / 2 : ℝ) ≠ 0 ∧ -((2 ^ (8 - 1) : ℕ) : ℝ) ≤ (10.3 : ℝ) / (1 / 2) ∧ (10.3 : ℝ) / (1 / 2) ≤ ((2 ^ (8 - 1) : ℕ) : ℝ) - 1 := by
+  norm_num
+
+/-! ### why a tie band suffices for the floating-point tie (harness)
+
+  If the un-rounded value `t` is further than `ε` from every half-integer, then every perturbed value `t'` with
+  `|t' - t| ≤ ε` (the float32 evaluation of the implementation) rounds to the same integer, for ANY pair of nearest-integer
+  rules.  The correspondence check therefore only excuses inputs whose model value is within the band of a half-integer. -/
+theorem IsNearest.stable {R R' : ℝ → ℤ} (hR : IsNearest R) (hR' : IsNearest R') (t t' ε : ℝ) (hε : |t' - t| ≤ ε)
+    (hfar : ∀ n : ℤ, ε < |t - ((n : ℝ) + 1 / 2)|) : R' t' = R t := by
+  have h1 := hR t
+  have h2 := hR' t'
+  have f1 := hfar (R t)
+  have f2 := hfar (R t - 1)
+  rw [abs_le] at h1 h2 hε
+  push_cast at f2
+  rw [abs_of_nonpos (by linarith [h1.1])] at f1
+  rw [abs_of_nonneg (by linarith [h1.2])] at f2
+  have a : ((R' t' - R t : ℤ) : ℝ) < 1 := by push_cast; linarith [h2.2, hε.2]
+  have b : (-1 : ℝ) < ((R' t' - R t : ℤ) : ℝ) := by push_cast; linarith [h2.1, hε.1]
+  have a' : R' t' - R t < 1 := by exact_mod_cast a
+  have b' : -1 < R' t' - R t := by exact_mod_cast b
+  omega
+
+example : ∀ n : ℤ, (1 / 10 : ℝ) < |(3 / 10 : ℝ) - ((n : ℝ) + 1 / 2)| := by
+  intro n
+  rcases le_or_gt n (-1) with h | h
+  · have : (n : ℝ) ≤ -1 := by exact_mod_cast h
+    rw [abs_of_nonneg (by linarith)]; linarith
+  · have : (0 : ℝ) ≤ n := by exact_mod_cast (show (0 : ℤ) ≤ n by omega)
+    rw [abs_of_nonpos (by linarith)]; linarith
 
 end Sarpy.Props.C08
